@@ -11,6 +11,7 @@ package main
 // trusted; the go-playground validator is cut (utils.Validate returns nil).
 
 import (
+	"go/token"
 	"bytes"
 	"encoding/json"
 	"fmt"
@@ -367,6 +368,9 @@ func (i *Interp) rawOfKept(g interface{}) []byte {
 // jsonDecodeInto stores the decoding of g, for static type t, into *cell.
 // Returns an error text or "".
 func (i *Interp) jsonDecodeInto(fr *frame, t types.Type, cell *value, g interface{}, useNumber bool) string {
+	// decoding writes the target: into shared-immutable memory that is a violation of the C09 discipline
+	// (json.Unmarshal fills an existing non-nil pointer in place)
+	i.noteWriteAt(cell, fr, token.NoPos, "json.Unmarshal")
 	// custom unmarshalers (pointer receiver method sets)
 	if _, isIface := t.Underlying().(*types.Interface); !isIface {
 		pt := types.NewPointer(t)
